@@ -178,6 +178,9 @@ def cases(tier, seed):
         ["null_default", {"k": "case", "cases": [[b, a], [fn("invert", b), c]], "default": lit(None)}],
         ["null_cond", {"k": "case", "cases": [[fn("and", b, fn("is_null", a)), lit(10)], [b, lit(20)]], "default": c}],
         ["mixed_width", {"k": "case", "cases": [[b, fn("add", a, lit(0.5))]], "default": c}],
+        ["int_then_float_default", {"k": "case", "cases": [[b, lit(1)]], "default": lit(2.5)}],
+        ["int_col_then_float_default", {"k": "case", "cases": [[b, a]], "default": fn("truediv", c, lit(2))}],
+        ["null_then_int_default", {"k": "case", "cases": [[fn("gt", a, lit(1)), lit(None)]], "default": a}],
         ["nested_case", {"k": "case", "cases": [[fn("lt", a, c), {"k": "case", "cases": [[b, lit("x")]], "default": lit("y")}]], "default": lit("z")}],
         ["map_int", {"k": "map", "e": a, "m": [[lit(0), lit(100)], [[lit(2), lit(65)], lit(200)]], "default": lit(-1)}],
         ["map_self", {"k": "map", "e": a, "m": [[lit(-7), lit(7)]], "default": None}],
